@@ -1,5 +1,6 @@
 import CLModel.Proto
 import CLModel.Compare.Merge
+import CLModel.Compare.MergeBytes
 namespace Ops.C04
 open Proto Merge
 
@@ -48,5 +49,109 @@ def opMerge (toks : List String) : String :=
     | _, _, _ => "bad-args"
   | _ => "bad-args"
 
-def ops : List (String × (List String → String)) := [("merge", opMerge)]
+/-! ### round 4: bytes, quiet levels -/
+open MergeB
+
+def showFileOut : FileOut → String
+  | .noFile => "nofile"
+  | .bytes b => "bytes " ++ showText b
+  | .typeError => "TypeError"
+  | .encodeError => "EncodeError"
+
+/-- c04.decode <bytes>: `Parser.readFile` (UTF-8 with replacement, universal newlines) -/
+def opDecode (toks : List String) : String :=
+  match toks with
+  | [b] => match parseText b with
+    | some b => showText (readFile b)
+    | none => "bad-args"
+  | _ => "bad-args"
+
+/-- c04.decode8 <bytes>: `Parser.readContents` (UTF-8 with replacement, NO newline translation) -/
+def opDecode8 (toks : List String) : String :=
+  match toks with
+  | [b] => match parseText b with
+    | some b => showText (decodeUtf8 b)
+    | none => "bad-args"
+  | _ => "bad-args"
+
+/-- c04.encode <text>: strict UTF-8 encoder -/
+def opEncode (toks : List String) : String :=
+  match toks with
+  | [t] => match parseText t with
+    | some t => (match encodeUtf8 t with | some b => showText b | none => "EncodeError")
+    | none => "bad-args"
+  | _ => "bad-args"
+
+/-- c04.mergeb <0|1 mergeFile> <caps> <l10n bytes> <ref bytes> <nskips> (s e junk refAll)* <nmissing> (refAll)* -/
+def opMergeB (toks : List String) : String :=
+  match toks with
+  | mf :: caps :: l10n :: ref :: n :: rest =>
+    match parseNat caps, parseText l10n, parseText ref, parseNat n with
+    | some caps, some l10n, some ref, some n =>
+      match parseSkips n rest with
+      | some (skips, m :: rest2) =>
+        match parseNat m with
+        | some m =>
+          match parseTexts m rest2 with
+          | some (ms, []) => showFileOut (mergeBytes (mf == "1") caps l10n ref skips ms)
+          | _ => "bad-args"
+        | none => "bad-args"
+      | _ => "bad-args"
+    | _, _, _, _ => "bad-args"
+  | _ => "bad-args"
+
+def retOfChar : Char → ObsM.Ret
+  | 'w' => .warning
+  | 'i' => .ignore
+  | _ => .error
+
+/-- (key, verdict per observer, refAll)* -/
+def parseEnts : Nat → List String → Option (List (List Nat × List Char × List Nat) × List String)
+  | 0, rest => some ([], rest)
+  | n + 1, k :: v :: t :: rest => do
+    let k ← parseText k
+    let t ← parseText t
+    let (es, r) ← parseEnts n rest
+    pure ((k, v.toList, t) :: es, r)
+  | _, _ => none
+
+/-- the filter of observer `j`: the verdict table of the generated case (any other key: "error") -/
+def tableFilter (ents : List (List Nat × List Char × List Nat)) (j : Nat) : ObsM.Filter :=
+  fun _ d =>
+    match d with
+    | .str k =>
+      match ents.find? (fun e => e.1 == k) with
+      | some e => (match e.2.1[j]? with | some c => retOfChar c | none => .error)
+      | none => .error
+    | _ => .error
+
+/-- c04.qmerge <quiet> <obsspec: one of f|n per observer> <file> <caps> <l10n bytes> <ref bytes>
+      <nents> (key verdicts refAll)* <nskips> (s e junk refAll)*
+    → `<FileOut> | missing=<n> report=<n>` or the Python exception -/
+def opQMerge (toks : List String) : String :=
+  match toks with
+  | q :: spec :: file :: caps :: l10n :: ref :: n :: rest =>
+    match parseNat q, parseText file, parseNat caps, parseText l10n, parseText ref, parseNat n with
+    | some q, some file, some caps, some l10n, some ref, some n =>
+      match parseEnts n rest with
+      | some (ents, m :: rest2) =>
+        match parseNat m with
+        | some m =>
+          match parseSkips m rest2 with
+          | some (skips, []) =>
+            let specs := spec.toList
+            let filters : List (Option ObsM.Filter) :=
+              (List.range specs.length).map (fun j => if specs[j]? == some 'f' then some (tableFilter ents j) else none)
+            let f : ObsM.File := { file := file, module := none, locale := some [120, 120] }
+            match compareMerge q filters f (ents.map (fun e => (ObsM.Data.str e.1, e.2.2))) caps l10n ref skips with
+            | .ok (out, mi, re) => showFileOut out ++ s!" | missing={mi} report={re}"
+            | .error e => e.name
+          | _ => "bad-args"
+        | none => "bad-args"
+      | _ => "bad-args"
+    | _, _, _, _, _, _ => "bad-args"
+  | _ => "bad-args"
+
+def ops : List (String × (List String → String)) :=
+  [("merge", opMerge), ("c04.decode", opDecode), ("c04.decode8", opDecode8), ("c04.encode", opEncode), ("c04.mergeb", opMergeB), ("c04.qmerge", opQMerge)]
 end Ops.C04
